@@ -599,8 +599,8 @@ func baseSpecs() []scenarioSpec {
 }
 
 func run(c *hl.Ctx) {
-	c.Rule("E1: every interleaving within the reported preemption bound (-1 = unbounded, with state-key pruning) of a data writer, control-frame senders, a closer and a ping-answering reader on one real Conn, and the same with a one-shot transport write failure (expired deadline or plain error, nothing or half accepted) at every position 0..4 of the transport write history; every transport write must run under the write deadline its own caller set; scheduling points: every transport Write/Read/Close, every receive/send/select on the lock channel c.mu (R3), Lock/Unlock of writeErrMu (R1). state = distinct observable outcome (frame sequence with owning goroutine); transition = scheduling step." + entryRule + histRule)
-	c.Assume("write deadlines are zero or far in the future: the lock-acquisition timeout path of WriteControl is not explored", "one data writer (the library's documented usage)", "unsynchronised accesses between scheduling points are judged by the separate free-running race-detector pass")
+	c.Rule("E1: every interleaving within the reported preemption bound (-1 = unbounded, with state-key pruning) of a data writer, control-frame senders, a closer and a ping-answering reader on one real Conn, and the same with a one-shot transport write failure (expired deadline or plain error, nothing or half accepted) at every position 0..4 of the transport write history; every transport write must run under the write deadline its own caller set; scheduling points: every transport Write/Read/Close, every receive/send/select on the lock channel c.mu (R3), Lock/Unlock of writeErrMu (R1). state = distinct observable outcome (frame sequence with owning goroutine); transition = scheduling step." + entryRule + histRule + openwRule)
+	c.Assume("write deadlines are zero or far in the future: the lock-acquisition timeout path of WriteControl is not explored", "one data writer (the library's documented usage)", "open-writer family: the documented API behaviour 'NextWriter closes the previous writer if the application has not already done so' (WriteMessage is NextWriter+Write+Close) is the reference for what a message-API call does to a still-open data writer: it finishes that message with exactly the bytes accepted so far (required only before a Close frame or a new data message; a ping/pong sent between the fragments instead is accepted too)", "unsynchronised accesses between scheduling points are judged by the separate free-running race-detector pass")
 	if c.Mode() == "race" {
 		racePass(c)
 		return
@@ -609,6 +609,7 @@ func run(c *hl.Ctx) {
 	t0 := time.Now()
 	runHistories(c)
 	c.Info("history_family_wall_s", time.Since(t0).Seconds()) // informational only
+	runOpenWriter(c)
 	done := map[string]int{}
 	nsched := map[string]int64{}
 	for _, sp := range specs() {
@@ -657,6 +658,11 @@ func racePass(c *hl.Ctx) {
 }
 
 func replay(c *hl.Ctx, raw json.RawMessage) {
+	var oc owCase
+	if err := json.Unmarshal(raw, &oc); err == nil && oc.Family == "W" {
+		replayOpenWriter(c, oc)
+		return
+	}
 	var hc histCase
 	if err := json.Unmarshal(raw, &hc); err == nil && hc.Family != "" {
 		replayHistory(c, hc)
